@@ -22,6 +22,8 @@ func init() {
 		"vpInt":          vpInt,
 		"vpBytes":        vpBytes,
 		"vpBytesCap":     vpBytesCap,
+		"vpBytesCapN":    vpBytesCapN,
+		"vpAllocBytes":   vpAllocBytes,
 		"vpStr":          vpStr,
 		"vpStrN":         vpStrN,
 		"vpConstStr":     vpConstStr,
@@ -83,8 +85,13 @@ func vpInt(e *Engine, st *State, fn *ssa.Function, a []Value, s ssa.Instruction)
 	st.tape = st.tape.push(TapeEntry{Kind: "int", Term: t})
 	st.assume(tm.And(tm.Sle(lo, t), tm.Sle(t, hi)))
 	if c1, ok := lo.SConstVal(); ok {
-		if c2, ok := hi.SConstVal(); ok && c1 == c2 {
-			return one(st, lo)
+		if c2, ok := hi.SConstVal(); ok {
+			if c1 == c2 {
+				return one(st, lo)
+			}
+			if c1 >= 0 && c2 >= c1 {
+				e.hints[t] = [2]uint64{uint64(c1), uint64(c2)}
+			}
 		}
 	}
 	return one(st, t)
@@ -284,4 +291,41 @@ func vpConstStr(e *Engine, st *State, fn *ssa.Function, a []Value, s ssa.Instruc
 		v[i] = ct
 	}
 	return one(st, &StrV{arr: &ArrVec{v}, off: e.c64(0), len: e.c64(uint64(n)), max: n})
+}
+
+// vpBytesCapN(n, extra): exactly n free bytes, capacity exactly n+extra, free bytes behind len.
+func vpBytesCapN(e *Engine, st *State, fn *ssa.Function, a []Value, s ssa.Instruction) []Outcome {
+	n := a[0].(*Term)
+	extra := constIntArg(a[1], "vpBytesCapN extra")
+	if c, ok := n.ConstVal(); ok {
+		name := e.tm.FreshName("in_bytes")
+		e.tm.DeclareArray(name)
+		total := int(c) + extra
+		st.tape = st.tape.push(TapeEntry{Kind: "bytes", Term: e.c64(c), Arr: name, Max: total, Cap: e.c64(uint64(total))})
+		v := make([]*Term, total)
+		for i := range v {
+			v[i] = e.tm.Select(name, e.c64(uint64(i)))
+		}
+		o := e.newObject(name, types.Typ[types.Uint8])
+		st.mem.set(o, ArrExpr(&ArrVec{v}))
+		return one(st, &SliceV{obj: o, off: e.c64(0), len: e.c64(c), cap: e.c64(uint64(total)), bytes: true, max: int(c)})
+	}
+	return e.forkOnLen(st, n, 300, func(st2 *State, k uint64) []Outcome {
+		return vpBytesCapN(e, st2, fn, []Value{e.c64(k), a[1]}, s)
+	})
+}
+
+func vpAllocBytes(e *Engine, st *State, fn *ssa.Function, a []Value, s ssa.Instruction) []Outcome {
+	if v, ok := st.ghost["vp.alloc"]; ok {
+		return one(st, v)
+	}
+	return one(st, e.c64(0))
+}
+
+func (e *Engine) countAlloc(st *State, bytes *Term) {
+	cur, ok := st.ghost["vp.alloc"]
+	if !ok {
+		cur = e.c64(0)
+	}
+	st.ghost["vp.alloc"] = e.tm.Add(cur.(*Term), bytes)
 }
